@@ -25,6 +25,7 @@ type Scenario struct {
 	Cb      string `json:"cb"`             // which callback re-enters Send: none, process, close, reopen, gated
 	Pending int    `json:"pending"`        // groups pending in the gated filter
 	Writer  bool   `json:"writer"`         // a writer is parked on the lock while the callback runs
+	Compose string `json:"compose,omitempty"` // "gateable": ComposeFrom hands back a payload that is itself a Gateable flush event
 	Race    bool   `json:"race"`           // gated filter inside Process (holding its mutex) vs removal
 	Fail    string `json:"fail,omitempty"` // op "failed": which call is made with a failing precondition
 }
@@ -132,7 +133,8 @@ type gate struct {
 }
 type gpay struct {
 	gated.Payload
-	g *gate
+	g    *gate
+	comp string
 }
 
 func (p *gpay) ComposeFrom(events []*eventlogger.Event) (eventlogger.EventType, interface{}, error) {
@@ -142,6 +144,11 @@ func (p *gpay) ComposeFrom(events []*eventlogger.Event) (eventlogger.EventType, 
 		default:
 		}
 		<-p.g.release
+	}
+	if p.comp == "gateable" {
+		// a composite that would come straight back into the same filter through the Broker: whatever the
+		// filter makes of it (today: an error), every call has to return
+		return "outer", &gpay{Payload: gated.Payload{ID: "composed", Flush: true}, comp: p.comp}, nil
 	}
 	return "outer", &struct{ N int }{len(events)}, nil
 }
@@ -190,7 +197,7 @@ func Run(sc Scenario) Result {
 	mustNil(b.RegisterPipeline(eventlogger.Pipeline{PipelineID: "inner", EventType: "inner", NodeIDs: []eventlogger.NodeID{"fmt2", "out2"}}))
 	ctx := context.Background()
 	for i := 0; i < sc.Pending; i++ {
-		b.Send(ctx, "outer", &gpay{Payload: gated.Payload{ID: fmt.Sprintf("g%d", i)}, g: gt})
+		b.Send(ctx, "outer", &gpay{Payload: gated.Payload{ID: fmt.Sprintf("g%d", i)}, g: gt, comp: sc.Compose})
 	}
 	done := make(chan error, 1)
 	go func() {
@@ -236,7 +243,13 @@ func Run(sc Scenario) Result {
 			if sc.Cb == "process" || sc.Cb == "process-write" {
 				_, err = b.Send(ctx, "outer", "plain payload: passes the gate and reaches the re-entering node")
 			}
-			_, err = b.Send(ctx, "outer", &gpay{Payload: gated.Payload{ID: "new"}, g: gt})
+			_, err = b.Send(ctx, "outer", &gpay{Payload: gated.Payload{ID: "new"}, g: gt, comp: sc.Compose})
+			if sc.Compose != "" {
+				// whatever became of the flush, later calls through the same filter return as well
+				b.Send(ctx, "outer", &gpay{Payload: gated.Payload{ID: "later"}, g: gt, comp: sc.Compose})
+				b.Send(ctx, "outer", &gpay{Payload: gated.Payload{ID: "later", Flush: true}, g: gt, comp: sc.Compose})
+				_, err = b.RemovePipelineAndNodes(ctx, "outer", "outer")
+			}
 		case "race":
 			// the gated filter is inside Process holding its mutex (blocked in ComposeFrom), a removal closes it meanwhile
 			gt.hold.Store(true)
@@ -445,6 +458,13 @@ func Scenarios() []Scenario {
 	}
 	for _, w := range []bool{false, true} {
 		add(Scenario{Op: "send", Cb: "process-write", Writer: w, Pending: 1})
+	}
+	for k := 1; k <= 2; k++ {
+		for _, op := range []string{"send", "rpan", "removenode"} {
+			sc := Scenario{Op: op, Cb: "gated", Pending: k, Compose: "gateable"}
+			sc.Name = fmt.Sprintf("%s/cb=gated/pending=%d/compose=gateable", op, k)
+			out = append(out, sc)
+		}
 	}
 	for _, f := range FailingCalls {
 		sc := Scenario{Op: "failed", Cb: "none", Fail: f}
